@@ -1437,7 +1437,6 @@ func ruleAsyncCompletion(c *Ctx) {
 	}
 }
 
-
 // takesRequestCB: the call hands the root function's request callback (its
 // func-typed parameter named cb) on to its callee — a continuation moved into
 // a named method, to be followed like the closure it replaced.
